@@ -497,6 +497,7 @@ fn build_items(args: &Args, out: &mut Out) -> Vec<Item> {
         push("regression", d, "all", true, "".into(), "empty".into());
         push("regression", d, "all", true, "\n".into(), "newline".into());
         push("regression", d, "all", true, "SELECT @x, b FROM t\n".into(), "unlexable".into());
+        push("regression", d, "CV06,CV07", true, "(\nSELECT 1\n);\n".into(), "create-after-at-offset-0".into());
         push("regression", d, "convention", false, "()".into(), "cv07-empty-brackets".into());
         push("regression", d, "all", true, "SELECT 1;\n()\n".into(), "cv07-empty-brackets".into());
     }
@@ -533,6 +534,10 @@ fn build_items(args: &Args, out: &mut Out) -> Vec<Item> {
         }
         let d = if thorough { DIALECTS[i % DIALECTS.len()] } else { "ansi" };
         push("rule-snippets", d, "all", true, text.clone(), name.clone());
+    }
+    if args.extra.iter().any(|a| a == "--subset") {
+        // checked-profile pass of the quick tier: regression, corpus (own dialect), rule fixtures
+        return items;
     }
     // 4. exhaustive single-token deletions / duplications on small files
     let mut small: Vec<&CorpusFile> = corpus.iter().filter(|f| f.text.len() < 400).collect();
@@ -637,9 +642,14 @@ fn build_items(args: &Args, out: &mut Out) -> Vec<Item> {
                 if !thorough && (kind + depth + di) % 3 != 0 && !(*d == "ansi" && depth == 64) {
                     continue;
                 }
-                // 64 nested subqueries in fix mode need 11 GB: quick tier does that for ansi only (the construct
-                // is the same ANSI grammar in every dialect) and lints the others; thorough does all
-                let fix = thorough || !(kind == 2 && depth >= 40) || *d == "ansi";
+                // nested subqueries / CASEs are cubic in time and memory (64 subqueries in fix mode: 11 GB, 10 s):
+                // thorough runs them at every 8th depth
+                if thorough && (kind == 2 || kind == 3) && depth > 8 && depth % 8 != 0 {
+                    continue;
+                }
+                // deep nested subqueries in fix mode: ansi only in quick tier, every 4th dialect in thorough
+                // (the construct is the same ANSI grammar in every dialect); the others are linted
+                let fix = !(kind == 2 && depth >= 40) || *d == "ansi" || (thorough && di % 4 == 0);
                 push("nesting", d, if kind % 2 == 0 { "all" } else { "layout" }, fix, nested(depth, kind), format!("nest{}x{}", kind, depth));
             }
         }
@@ -703,7 +713,9 @@ pub fn main(args: &Args) {
         }]
     } else {
         // kernel correspondence cases first (in-process; cheap)
-        c03k::kernel_cases(args, &mut out);
+        if !args.extra.iter().any(|a| a == "--subset") {
+            c03k::kernel_cases(args, &mut out);
+        }
         build_items(args, &mut out)
     };
 
